@@ -84,8 +84,8 @@ def seeded_table(round_):
     rows = ["| seeded change | what it needs to manifest | caught by | note |", "|---|---|---|---|"]
     for d in sorted(glob.glob(f'{V}/seeded/C*')):
         name = os.path.basename(d)
-        is_r2 = name.endswith('-r2')
-        if (round_ == 2) != is_r2:
+        m_ = re.search(r'-r(\d+)$', name)
+        if (int(m_.group(1)) if m_ else 1) != round_:
             continue
         mp = f'{d}/meta.json'
         if not os.path.exists(mp):
@@ -109,7 +109,7 @@ def benign_table():
 
 
 GEN = {'checks': checks_table, 'fixed': fixed_list, 'known': known_list,
-       'seeded1': lambda: seeded_table(1), 'seeded2': lambda: seeded_table(2), 'benign': benign_table}
+       'seeded1': lambda: seeded_table(1), 'seeded2': lambda: seeded_table(2), 'seeded3': lambda: seeded_table(3), 'benign': benign_table}
 
 s = open(f'{V}/DESIGN.md').read()
 for name, fn in GEN.items():
